@@ -335,9 +335,20 @@ pub(crate) fn run_batch(check: Arc<dyn Check>, seed: u64, tier: Tier, runs: u64,
                 break;
             }
             let run_seed = mix(mix(seed, crate::framework::hash_key(&[check.id()])), idx);
-            let mut trace = check.gen(run_seed, idx, tier);
-            trace.seed = seed;
-            let out = check.exec(&trace);
+            let chk = check.clone();
+            let res = std::panic::catch_unwind(std::panic::AssertUnwindSafe(move || {
+                let mut trace = chk.gen(run_seed, idx, tier);
+                trace.seed = seed;
+                let out = chk.exec(&trace);
+                (trace, out)
+            }));
+            let (trace, out) = match res {
+                Ok(x) => x,
+                Err(_) => {
+                    let t = Trace { check: check.id().into(), seed, run_seed, config: crate::world::SimConfig::default(), params: Default::default(), actions: vec![] };
+                    (t, Outcome::harness_error(format!("generator or oracle panicked (run index {}, run_seed {})", idx, run_seed)))
+                }
+            };
             if let Some(v) = &out.violation {
                 let is_known = known_sigs.iter().any(|(p, s)| *p == v.property && *s == v.sig);
                 if !is_known {
